@@ -337,6 +337,8 @@ class Derivation(Constraint):
                 continue
             num_levels = len(f.levels)
             get_trial_size = lambda x: trial_size if x < block.grid_variables() else len(block.decode_variable(x+1)[0].levels)
+            first_variable = lambda x: 0 if x < block.grid_variables() else block.first_variable_for_level(block.decode_variable(x+1)[0],
+                                                                                                          block.decode_variable(x+1)[0].levels[0])
 
             # Only keep clauses where all `BeforeStarts` apply and all indices are in range:
             ands = []
@@ -350,7 +352,9 @@ class Derivation(Constraint):
                             break
                     else:
                         new_x = x + ((t * window.stride + delta) * get_trial_size(x) + 1)
-                        if new_x <= 0:
+                        # Variables of a complex-window factor start after the grid, so
+                        # "before its first trial" is not the same as "not positive" there
+                        if new_x <= first_variable(x):
                             ok = False
                             break
                         vars.append(new_x)
